@@ -61,7 +61,10 @@ def roiKind : Roi → String
   | .poly .. => "poly"
   | .categorical .. => "catroi"
 
-/-- A data column: `(num v …)` with `nan` / int / `(q n d)` entries, or `(cat l …)`. -/
+/-- A data column: `(num v …)` with `nan` / int / `(q n d)` entries, `(cat l …)` (category list =
+`np.unique` of the labels, as the viewers pass it) or `(catl (c …) l …)` (explicit category list, passed
+to `roi_to_subset_state` in exactly this order — any order, possibly with duplicates / categories
+without elements). -/
 def column? : Sexp → Option (Option (List Int) × List Val)
   | .list (.atom "num" :: vs) => do
     let vals ← vs.mapM fun v => match v with
@@ -71,7 +74,33 @@ def column? : Sexp → Option (Option (List Int) × List Val)
   | .list (.atom "cat" :: ls) => do
     let labs ← ls.mapM toInt?
     some (some (categories labs), labs.map Val.lab)
+  | .list (.atom "catl" :: order :: ls) => do
+    let labs ← ls.mapM toInt?
+    some (some (← order.toInts?), labs.map Val.lab)
   | _ => none
+
+/-- `component.codes` of a categorical column built with `categories=` the list as passed (only
+meaningful for a duplicate-free list): the index of each label in that list. -/
+def codesSexp (cats : Option (List Int)) (vals : List Val) : Sexp :=
+  match cats with
+  | some cs =>
+    if noDup cs then ofInts (vals.map fun v => match v with | .lab l => ((indexOf l cs : Nat) : Int) | _ => -1)
+    else .atom "N"
+  | none => .atom "N"
+
+def hasDup : Option (List Int) → Bool
+  | some cs => !noDup cs
+  | none => false
+
+def isUnsorted : Option (List Int) → Bool
+  | some cs => !strictSorted cs
+  | none => false
+
+/-- Evidence tag: which kind of category order the case exercises. -/
+def orderTag (xc yc : Option (List Int)) : String :=
+  if hasDup xc || hasDup yc then "+dup"
+  else if isUnsorted xc || isUnsorted yc then "+unsorted"
+  else ""
 
 def pre? : Sexp → Option (Option Affine)
   | .atom "N" => some none
@@ -90,7 +119,9 @@ def stateSexp (exact : Bool) : State → Sexp
   | .and a b => .list [.atom "And", stateSexp exact a, stateSexp exact b]
   | .cat2d sel =>
     -- the selection table is compared only on exact paths (ε = 0); otherwise band points may differ
-    if exact then .list [.atom "Cat2D", .list (sel.map fun kv => .list [ofInt kv.1, ofInts kv.2])]
+    -- canonical form of the Python dict of sets: keys sorted, last insertion wins, values sorted
+    if exact then .list [.atom "Cat2D", .list ((categories (sel.map (·.1))).map fun k =>
+      .list [ofInt k, ofInts (categories ((dictGet sel k).getD []))])]
     else .list [.atom "Cat2D"]
   | .catMulti _ c n => .list [.atom "CatMulti", ofOri c, ofOri n]
   | .roi r => .list [.atom "Roi", .atom (roiKind r)]
@@ -118,20 +149,30 @@ def step (line : String) : String :=
       let es := (xs.zip ys).map fun p => (⟨p.1, p.2⟩ : Elem)
       let st := roiToState r xc yc usePre
       let model := es.map (mask pre st)
-      let nears := es.map (specNear ε r xc yc pre)
-      -- python output: (xcats ycats state mask)
+      let dup := hasDup xc || hasDup yc
+      -- elements whose mask entry the exact model does not predict on float-affected paths (ε > 0):
+      -- the boundary band; with duplicated list entries also the elements whose occurrences disagree
+      let nears := es.map fun e => if dup then specAmbiguous ε r xc yc pre e else specNear ε r xc yc pre e
+      -- python output: (xcats ycats state mask codes)
+      -- Spec on the plotted positions themselves: the component built with the list as passed plots
+      -- every element at the index of its label in that list (`component.codes` = `plotCoord`)
+      let codes := Sexp.list [codesSexp xc xs, codesSexp yc ys]
       let (pyMask, pyOk) : Option (List Bool) × Bool := match pyout with
-        | .list [_, _, _, m] => (toBits? m, true)
+        | .list [_, _, _, m, c] => (toBits? m, c == codes)
         | _ => (none, false)
+      -- a category list with duplicates gives a label several positions: the verdict must then be
+      -- justified by one of them (`specMaskAny`; = `specMask` on duplicate-free lists)
+      let specM : List Bool → Bool := fun m =>
+        if dup then specMaskAny ε r xc yc pre es m else specMask ε r xc yc pre es m
       -- inside the band (ε > 0) the float code may legitimately differ from the exact model
       let implMask := match pyMask with
         | some pm => if pm.length == model.length ∧ ε > 0 then
             (model.zip (pm.zip nears)).map fun t => if t.2.2 then t.2.1 else t.1
           else model
         | none => model
-      let impl := Sexp.list [ofOptInts xc, ofOptInts yc, stateSexp (ε == 0) st, ofBits implMask]
+      let impl := Sexp.list [ofOptInts xc, ofOptInts yc, stateSexp (ε == 0) st, ofBits implMask, codes]
       let ok := pyOk && match pyMask with
-        | some pm => specMask ε r xc yc pre es pm
+        | some pm => specM pm
         | none => false
       -- inside the hypothesis of `roi_selection` the theorem's own conclusion is re-checked on the
       -- executed case (exact boundary, no band); outside it (polygonised circles …) the band is used
@@ -139,8 +180,8 @@ def step (line : String) : String :=
       let implok :=
         if inP then (es.zip model).all fun em =>
           specOnBoundary r xc yc pre em.1 || (em.2 == specSelected r xc yc pre em.1)
-        else specMask ε r xc yc pre es model
-      driverResult impl ok implok inP (stateBranch r st)
+        else specM model
+      driverResult impl ok implok inP (stateBranch r st ++ orderTag xc yc)
     | _, _, _, _, _, _ => bad "sel-args"
   | some (.list [.atom "mpl", .list [vsE, ptsE], pyout]) =>
     match pts? vsE, pts? ptsE with
@@ -182,17 +223,16 @@ def step (line : String) : String :=
       let sel := fromRange cats lo hi
       let cont := labs.map (catRoiContains sel)
       let impl := Sexp.list [ofInts sel, ofBits cont]
-      -- Spec: a label of `cats` is contained iff its position lies strictly inside (lo, hi),
+      -- Spec (`specFromRange`, theorem `from_range_any_list`): a label of `cats` (ANY order, duplicates
+      -- allowed) is contained iff its position in the list as passed lies strictly inside (lo, hi),
       -- except on the boundary position = lo; a foreign label is never contained
       let spec (m : List Bool) : Bool := m.length == labs.length && (labs.zip m).all fun t =>
-        if cats.contains t.1 then
-          let i : Rat := ((indexOf t.1 cats : Nat) : Int)
-          decide (i = lo) || (t.2 == (decide (lo < i) && decide (i < hi)))
-        else t.2 == false
+        specFromRange cats lo hi t.1 t.2
       let ok := match pyout with
         | .list [_, m] => match toBits? m with | some pm => spec pm | none => false
         | _ => false
-      driverResult impl ok (spec cont) true (if sel.isEmpty then "empty" else "nonempty")
+      driverResult impl ok (spec cont) true
+        ((if sel.isEmpty then "empty" else "nonempty") ++ orderTag (some cats) none)
     | _, _, _, _ => bad "frange-args"
   | _ => bad "unknown-family"
 
